@@ -595,13 +595,13 @@ def solve_valid_inc(s, goal, timeout_ms):
             return "invalid", "z3-cone", (ms, md)
     smt2 = s.to_smt2()
     # a second, independent z3 build (Debian's 4.8.12 CLI): different heuristics decide many queries the 5.1 API leaves open
-    r1, m1 = _z3cli_check(smt2, timeout_ms)
+    r1, m1 = _z3cli_check(smt2, max(3000, timeout_ms // 2))
     if r1 == "unsat":
         return "valid", "z3-4.8.12(cli)", None
     if r1 == "sat":
         return "invalid", "z3-4.8.12(cli)", (m1[:2000], {"__raw__": m1[:4000]})
     try:
-        r2 = _cvc5_check(smt2, timeout_ms)
+        r2 = _cvc5_check(smt2, max(3000, timeout_ms // 2))
     except Exception:
         r2 = "unknown"
     if r2 == "unsat":
@@ -611,7 +611,7 @@ def solve_valid_inc(s, goal, timeout_ms):
     # REFUTE rendering for the uninterpreted pow2: add its TRUE values on a small exponent range and restrict the
     # exponents to that range.  This only strengthens the hypotheses with facts that hold for 2^k, so a model is a
     # genuine counter-model of the obligation (never used to prove anything).
-    rr = _refute_with_pow2_table(asserts, min(timeout_ms, 10000))
+    rr = _refute_with_pow2_table(asserts, min(timeout_ms // 2, 10000))
     if rr is not None:
         return "invalid", "z3-refute(pow2 table)", rr
     return "unknown", "z3+cvc5", None
